@@ -5,7 +5,7 @@
 //! happened at its public boundaries.
 
 use crate::model::Value;
-use crate::shape::{Kont, Shape};
+use crate::shape::{assign_op, Kont, Op, OpOut, Shape};
 use flatty::{Emplacer, Error};
 use flatty_io::{AsyncReadBuffer, AsyncReceiver, AsyncSender, IoBuffer, ReadBuffer, Receiver, RecvError, Sender};
 use futures::io::{AsyncRead, AsyncWrite};
@@ -323,6 +323,9 @@ pub struct IoTrace {
 #[derive(Clone, Debug)]
 pub struct IoCase {
     pub msgs: Vec<(Value, u64)>,
+    /// per message: a value that is emplaced first; the message is then replaced by `msgs[i]` *through the send guard*
+    /// (`DerefMut`) before it is sent.  What has to arrive is the content at the time of `send()`.
+    pub pre: Vec<Option<(Value, u64)>>,
     pub max_msg_len: usize,
     pub wchunks: Vec<usize>,
     pub rchunks: Vec<usize>,
@@ -366,6 +369,14 @@ impl<'a, M: Shape + ?Sized, B: flatty_io::AsyncWriteBuffer> Kont<M> for AGuardK<
     }
 }
 
+/// The guard's message, first initialised with another value, is replaced by `v` through `DerefMut`.
+fn edit_through<M: Shape + ?Sized>(m: &mut M, v: &Value, style: u64) -> Result<(), String> {
+    match assign_op(m, &Op::Assign(v.clone(), style)) {
+        OpOut::Done => Ok(()),
+        o => Err(format!("emplace: assign through the guard: {:?}", o)),
+    }
+}
+
 fn is_breaker(p: &str) -> bool {
     p.contains("harness-breaker")
 }
@@ -393,7 +404,7 @@ pub fn run_blocking<M: Shape + ?Sized>(c: &IoCase) -> IoTrace {
                 Some(cap) => Sender::<M, _>::new(IoBuffer::new(ScriptedWriter(ws), cap, M::ALIGN)),
                 None => Sender::<M, _>::io(ScriptedWriter(ws), c.max_msg_len),
             };
-            for (v, style) in &c.msgs {
+            for (i, (v, style)) in c.msgs.iter().enumerate() {
                 let guard = match sender.alloc() {
                     Ok(g) => g,
                     Err(e) => {
@@ -401,9 +412,18 @@ pub fn run_blocking<M: Shape + ?Sized>(c: &IoCase) -> IoTrace {
                         break;
                     }
                 };
-                let res = match M::with_emp(v, *style, BGuardK(guard)) {
-                    Err(e) => Err(format!("emplace: {:?}", e)),
-                    Ok(g) => g.send().map_err(|e| format!("io: {:?}", e.kind())),
+                let res = match c.pre.get(i).and_then(|p| p.as_ref()) {
+                    None => match M::with_emp(v, *style, BGuardK(guard)) {
+                        Err(e) => Err(format!("emplace: {:?}", e)),
+                        Ok(g) => g.send().map_err(|e| format!("io: {:?}", e.kind())),
+                    },
+                    Some((pv, ps)) => match M::with_emp(pv, *ps, BGuardK(guard)) {
+                        Err(e) => Err(format!("emplace: {:?}", e)),
+                        Ok(mut g) => match edit_through::<M>(&mut *g, v, *style) {
+                            Ok(()) => g.send().map_err(|e| format!("io: {:?}", e.kind())),
+                            Err(e) => Err(e),
+                        },
+                    },
                 };
                 let failed = res.is_err();
                 sends.borrow_mut().push(res);
@@ -688,6 +708,7 @@ pub fn run_async<M: Shape + ?Sized>(c: &IoCase) -> IoTrace {
         let sends2 = sends.clone();
         let marks2 = done_marks.clone();
         let msgs = c.msgs.clone();
+        let pre = c.pre.clone();
         let max = c.max_msg_len;
         let snd_cap = c.snd_cap;
         let send_after_error = c.send_after_error;
@@ -701,7 +722,7 @@ pub fn run_async<M: Shape + ?Sized>(c: &IoCase) -> IoTrace {
                 Some(cap) => AsyncSender::<M, _>::new(IoBuffer::new(AsyncW(ws), cap, M::ALIGN)),
                 None => AsyncSender::<M, _>::io(AsyncW(ws), max),
             };
-            for (v, style) in msgs.iter() {
+            for (i, (v, style)) in msgs.iter().enumerate() {
                 let guard = match sender.alloc().await {
                     Ok(g) => g,
                     Err(e) => {
@@ -709,9 +730,18 @@ pub fn run_async<M: Shape + ?Sized>(c: &IoCase) -> IoTrace {
                         break;
                     }
                 };
-                let res = match M::with_emp(v, *style, AGuardK(guard)) {
-                    Err(e) => Err(format!("emplace: {:?}", e)),
-                    Ok(g) => g.send().await.map_err(|e| format!("io: {:?}", e.kind())),
+                let res = match pre.get(i).and_then(|p| p.as_ref()) {
+                    None => match M::with_emp(v, *style, AGuardK(guard)) {
+                        Err(e) => Err(format!("emplace: {:?}", e)),
+                        Ok(g) => g.send().await.map_err(|e| format!("io: {:?}", e.kind())),
+                    },
+                    Some((pv, ps)) => match M::with_emp(pv, *ps, AGuardK(guard)) {
+                        Err(e) => Err(format!("emplace: {:?}", e)),
+                        Ok(mut g) => match edit_through::<M>(&mut *g, v, *style) {
+                            Ok(()) => g.send().await.map_err(|e| format!("io: {:?}", e.kind())),
+                            Err(e) => Err(e),
+                        },
+                    },
                 };
                 marks2.borrow_mut().push(log_state.borrow().log.events.len());
                 let failed = res.is_err();
